@@ -74,3 +74,11 @@ M["N3_num_rows_recomputed"] = ("fastparquet/api.py", '''            self.fmd.row
 ''', '''            self.fmd.row_groups = rg_new
             self.fmd.num_rows = sum(rg.num_rows for rg in rg_new)
 ''', "N")
+M["M11_overwrite_selects_by_path_prefix"] = ("fastparquet/writer.py", '''    rgs_to_remove = filter(lambda rg : (partitions(rg, True)
+                                        in partition_values_in_new),
+                           pf.row_groups)
+''', '''    new_dirs = ['/'.join('%s=%s' % (n, v) for n, v in zip(defined_partitions, val.split('/')))
+                for val in partition_values_in_new]
+    rgs_to_remove = filter(lambda rg : any(rg.columns[0].file_path.startswith(d) for d in new_dirs),
+                           pf.row_groups)
+''', "M")
